@@ -271,13 +271,16 @@ def case_chi2(ctx, rng, idx):
     if not d2 and n >= 3 and rng.random() < 0.6:
         keys.add(tuple(sorted(rng.sample(range(n), 3))))
     keys |= {(i,) for i in range(n) if not any(i in k for k in keys)}
-    terms = {k: rng.choice([-1, -0.5, 0.3, 0.7, 1, 0.6, -0.4, 1.5]) for k in keys}
+    zero_step = rng.random() < 0.25
+    # with a zero-temperature step the acceptance rule is discontinuous at dE = 0, so the kernel's float arithmetic must be
+    # exact: dyadic coefficients only (a mathematically zero dE computed as +-1e-17 would otherwise look like a violation)
+    terms = {k: rng.choice([-1, -0.5, 0.25, 0.75, 1, 0.5, -0.25, 1.5] if zero_step else [-1, -0.5, 0.3, 0.7, 1, 0.6, -0.4, 1.5]) for k in keys}
     M = getattr(L, tn)(terms)
     p = ref.from_raw("spin" if spin else "bool", {k: frac(v) for k, v in terms.items()})
     dom = (1, -1) if spin else (0, 1)
     init = [rng.choice(dom) for _ in range(n)]
     Ts = [rng.choice([0.6, 0.9, 1.3, 2.0, 0.4]) for _ in range(rng.randint(1, 3))]
-    if rng.random() < 0.25:
+    if zero_step:
         Ts.insert(rng.randrange(len(Ts) + 1), 0)        # a zero-temperature sweep inside a positive schedule
         ctx.cat("chi2:with-zero-temperature-step")
     in_order = rng.random() < 0.5
